@@ -5,10 +5,11 @@
    GetOrAllocate / ReleaseBlocks / RestoreMapping / RestoreMappingIfAbsent calls.  An allocation op may carry the
    block somebody else chose ([Some b]): it is granted only if admissible, so the theorems cover every allocation
    policy, the current first-free one included ([None]).  [blocks_of p k] are the blocks subscriber k holds.
-   Variant [repaired] = the code with every fixes/C15_*.patch applied.  Of those, restore validation, reverse Add
-   replace, outside-address dedup and the HA-synced rollback are in /repo (285c7b2, 7d1d0b3, 3b1c45d, 0cedd79); the
-   inside-VRF key, the cross-pool overlap check and the late-add reconciliation are open findings (see the end of this
-   file).  [defective] = the code before any of them.
+   Variant [repaired] = /repo HEAD: all seven fixes/C15_*.patch are committed (285c7b2 restore validation, 7d1d0b3
+   reverse Add replace, 3b1c45d outside-address dedup, 0cedd79 HA-synced rollback, 53e73c2 inside-VRF key, 1fd8c60
+   cross-pool overlap rejected, 8d8ac1d late add completion reconciled).  No C15 finding is open.  The [_refuted]
+   theorems below are historical witnesses against the code before the named commit; [defective] = before all of
+   them.
    [wf_range r]: port-range start <= end <= 65535 (not checked by cgnat.Config.Validate; listed as an assumption). *)
 From OV Require Import Common.Base C15.Model C15.Proofs.
 Local Open Scope N_scope.
@@ -77,16 +78,19 @@ Print Assumptions C15_first_free_admissible.
 
 (* ---- component level: the reverse index as maintained by component.go's call order ---- *)
 
-(* Lookup of any (address, port) names exactly the subscriber holding the covering block, or nothing when no held
-   block covers the port.  [ops] ranges over all histories of activation, activation with an HA-synced record,
-   release, the two restore branches and late completion of dataplane deletes, and every event carries the outcome
-   of its southbound calls (add ok/failed, each delete ok/failed, bulk reprogram ok / per-mapping error / transport
-   error): the statement holds for every fault pattern, i.e. the reverse index follows the pool, not the dataplane
-   outcome.  Hypothesis [forallb sync_op ops]: the outcome of every dataplane ADD is delivered before the next event.
-   Without it the statement is false of the code (C15_late_completion_refuted, recorded finding
-   late-add-completion); the pool statements need no such hypothesis (C15_component_pool_properties). *)
+(* Lookup of any (address, port) names exactly the subscriber holding the covering block; a covered port that gets no
+   answer belongs to a block whose dataplane add is still in flight (and to nothing else).  [ops] ranges over ALL
+   component histories: activation with the add outcome known at once (ok / failed) or left in flight and completed
+   later in any order relative to every other event ([CActivateLate], [CAddComplete ok/failed]), activation with an
+   HA-synced record, release (which cancels an activation in flight), both restore branches, late completion of
+   dataplane deletes; every event carries the outcome of its southbound calls.  The reverse index follows the
+   pool, not the dataplane outcome.
+   Only hypothesis on the history, [forallb (keyed f) ops]: there is a function f from session ids to subscribers such
+   that every in-flight activation and every release of session sid names subscriber f sid (a session is released
+   with the inside VRF / address it was activated with).  Without it a release that names another address than the
+   in-flight activation cancels the activation but releases the wrong subscriber's blocks. *)
 Theorem C15_reverse_lookup_exact :
-  forall r p0 ops, wf_range r -> configure repaired r = Some p0 -> forallb sync_op ops = true ->
+  forall r p0 f ops, wf_range r -> configure repaired r = Some p0 -> forallb (keyed f) ops = true ->
   forall ip port,
   match rev_lookup (cp_rev (crun repaired (effective r) (comp_init p0) ops)) ip port with
   | Some m => In (m_blk m) (blocks_of (cp_pool (crun repaired (effective r) (comp_init p0) ops)) (m_sub m)) /\
@@ -94,10 +98,20 @@ Theorem C15_reverse_lookup_exact :
               forall k b, In b (blocks_of (cp_pool (crun repaired (effective r) (comp_init p0) ops)) k) ->
                           covers b ip port = true -> k = m_sub m /\ b = m_blk m
   | None => forall k b, In b (blocks_of (cp_pool (crun repaired (effective r) (comp_init p0) ops)) k) ->
-                        covers b ip port = false
+                        covers b ip port = true ->
+                        exists sid, In (sid, k, b) (cp_pend (crun repaired (effective r) (comp_init p0) ops))
   end.
-Proof. exact reverse_lookup_exact. Qed.
+Proof. intros r p0 f ops Hr Hc K ip port. exact (reverse_lookup_exact_all r p0 f ops ip port Hr Hc K). Qed.
 Print Assumptions C15_reverse_lookup_exact.
+
+(* whenever no add is in flight, "no answer" means "no held block covers the port" *)
+Theorem C15_reverse_lookup_exact_quiescent :
+  forall r p0 f ops ip port, wf_range r -> configure repaired r = Some p0 -> forallb (keyed f) ops = true ->
+  cp_pend (crun repaired (effective r) (comp_init p0) ops) = [] ->
+  rev_lookup (cp_rev (crun repaired (effective r) (comp_init p0) ops)) ip port = None ->
+  forall k b, In b (blocks_of (cp_pool (crun repaired (effective r) (comp_init p0) ops)) k) -> covers b ip port = false.
+Proof. exact reverse_lookup_exact_quiescent. Qed.
+Print Assumptions C15_reverse_lookup_exact_quiescent.
 
 (* the pool inside the component: disjoint, in range / aligned / not excluded, limit, pairing -- for EVERY component
    history, dataplane adds completing late and in any order included (the component only ever performs pool
@@ -145,7 +159,7 @@ Print Assumptions C15_disjoint_across_pools.
 
 (* ---- what the code violated before the fixes now in /repo (variant [defective] or a single missing repair) ---- *)
 
-(* RestoreMapping accepts an unaligned block overlapping subscriber 1's block; releasing the restored subscriber
+(* Before 285c7b2: RestoreMapping accepts an unaligned block overlapping subscriber 1's block; releasing the restored subscriber
    clears subscriber 1's bit; the allocator then hands subscriber 1's block to subscriber 4. *)
 Theorem C15_disjoint_refuted :
   exists ops b, let p := run defective ex_cfg (pool_of defective ex_raw) ops in
@@ -157,7 +171,7 @@ Proof.
 Qed.
 Print Assumptions C15_disjoint_refuted.
 
-(* Degraded restore indexes subscriber 2's block; the session's activation finds the block through GetOrAllocate and
+(* Before 7d1d0b3: degraded restore indexes subscriber 2's block; the session's activation finds the block through GetOrAllocate and
    commitMapping indexes it a second time; release removes one entry; subscriber 3 is then given the block, but the
    reverse lookup of port 1040 still names subscriber 2. *)
 Theorem C15_reverse_lookup_refuted :
@@ -171,7 +185,7 @@ Proof.
 Qed.
 Print Assumptions C15_reverse_lookup_refuted.
 
-(* An outside address listed twice gets two allocators: subscriber 3 is given the block subscriber 1 holds. *)
+(* Before 3b1c45d: an outside address listed twice gets two allocators: subscriber 3 is given the block subscriber 1 holds. *)
 Theorem C15_duplicate_address_refuted :
   exists ops b, let p := run defective (effective ex_raw_dup) (pool_of defective ex_raw_dup) ops in
     In b (blocks_of p 1) /\ In b (blocks_of p 3).
@@ -181,7 +195,7 @@ Proof.
 Qed.
 Print Assumptions C15_duplicate_address_refuted.
 
-(* HA-synced activation whose dataplane add fails: the rollback releases every block of the subscriber but leaves
+(* Before 0cedd79: HA-synced activation whose dataplane add fails: the rollback releases every block of the subscriber but leaves
    the reverse entry that the earlier (degraded) restore created; port 1040 still names subscriber 2, who holds
    nothing.  Only the rollback repair is missing in this variant. *)
 Definition only_rollback_missing : variant :=
@@ -197,12 +211,12 @@ Proof.
 Qed.
 Print Assumptions C15_synced_rollback_refuted.
 
-(* ---- open findings on /repo HEAD ---- *)
+(* ---- witnesses against the code before 53e73c2 / 1fd8c60 / 8d8ac1d (all fixed) ---- *)
 Definition with_flags (vrf xp late : bool) : variant :=
   {| v_validate := true; v_replace := true; v_dedup := true; v_rollback := true; v_vrfkey := vrf; v_xpool := xp;
      v_late := late |}.
 
-(* The component passes inside VRF 0 for every session: subscriber 5 (VRF 0, 10.0.0.5) and subscriber 65541
+(* Before 53e73c2 the component passed inside VRF 0 for every session: subscriber 5 (VRF 0, 10.0.0.5) and subscriber 65541
    (VRF 1, 10.0.0.5) are told the same block; when the first leaves, the second is left with a mapping the pool has
    already freed. *)
 Theorem C15_vrf_sharing_refuted :
@@ -216,7 +230,7 @@ Theorem C15_vrf_sharing_refuted :
 Proof. eexists. vm_compute. repeat split. Qed.
 Print Assumptions C15_vrf_sharing_refuted.
 
-(* Two pools listing 100.64.0.1 are both accepted: subscriber 1 of pool 0 and subscriber 2 of pool 1 hold the same
+(* Before 1fd8c60 two pools listing 100.64.0.1 were both accepted: subscriber 1 of pool 0 and subscriber 2 of pool 1 hold the same
    (address, port) block. *)
 Definition ex_raw_p2 : rawcfg :=
   {| r_bs := 64; r_ratio := 0; r_range := Some (1024, 1151); r_max := 1; r_pooling := 1;
@@ -229,7 +243,7 @@ Theorem C15_pool_overlap_refuted :
 Proof. eexists. exists {| b_ip := 1681915905; b_start := 1024; b_end := 1087 |}. vm_compute. repeat split; left; reflexivity. Qed.
 Print Assumptions C15_pool_overlap_refuted.
 
-(* Late completion of a dataplane add (variant = HEAD with the two fixes above).
+(* Late completion of a dataplane add before 8d8ac1d.
    Schedule 1: the session is released while its add is in flight -- the release finds no committed mapping and does
    nothing, the completion then commits: the departed subscriber keeps its block and its session entry for ever.
    Schedule 2: a second session on the same subscriber key commits and releases the block, another subscriber is
@@ -268,7 +282,8 @@ Print Assumptions C15_nonvacuous.
 
 (* component level non-vacuity: the history of the refuted witness on the repaired model, plus a refused restore, a
    restore whose reprogram fails (the session is then activated afresh), a release whose dataplane delete fails, a
-   failed activation and a failed HA-synced activation; the lookups name the right owners and a released or rolled
+   failed activation, a failed HA-synced activation, an activation cancelled by a release while its add is in flight
+   (session 12, the late completion is ignored) and one whose add completes late (session 13); the lookups name the right owners and a released or rolled
    back port answers nothing *)
 Example C15_component_nonvacuous :
   wf_range ex_raw1 /\ configure repaired ex_raw1 <> None /\
@@ -277,12 +292,25 @@ Example C15_component_nonvacuous :
               CActivate 6 2 true None; CRestorePresent 8 4 {| b_ip := 1681915905; b_start := 1041; b_end := 1056 |} 0 None;
               CRestorePresent 10 4 {| b_ip := 1681915905; b_start := 1072; b_end := 1087 |} 1 None;
               CRelease 6 2 [false]; CComplete; CActivate 7 3 true None; CActivate 9 5 false None;
-              CSynced 11 5 5 {| b_ip := 1681915905; b_start := 1088; b_end := 1103 |} false None] in
+              CSynced 11 5 5 {| b_ip := 1681915905; b_start := 1088; b_end := 1103 |} false None;
+              CActivateLate 12 6 None; CRelease 12 6 []; CAddComplete 12 true;
+              CActivateLate 13 6 None; CAddComplete 13 true] in
   option_map m_sub (rev_lookup (cp_rev s) 1681915905 1030) = Some 1 /\
   option_map m_sub (rev_lookup (cp_rev s) 1681915905 1040) = Some 3 /\
   option_map m_sub (rev_lookup (cp_rev s) 1681915905 1056) = Some 4 /\
-  rev_lookup (cp_rev s) 1681915905 1072 = None /\
+  option_map m_sub (rev_lookup (cp_rev s) 1681915905 1072) = Some 6 /\
+  rev_lookup (cp_rev s) 1681915905 1088 = None /\
   blocks_of (cp_pool s) 4 = [ {| b_ip := 1681915905; b_start := 1056; b_end := 1071 |} ] /\
-  blocks_of (cp_pool s) 5 = [] /\ cp_sess s = [1; 10; 7].
+  blocks_of (cp_pool s) 5 = [] /\
+  blocks_of (cp_pool s) 6 = [ {| b_ip := 1681915905; b_start := 1072; b_end := 1087 |} ] /\
+  cp_sess s = [1; 10; 7; 13] /\ cp_pend s = [].
 Proof. vm_compute. repeat split; try discriminate; intros H; discriminate. Qed.
 Print Assumptions C15_component_nonvacuous.
+
+(* the hypothesis of C15_reverse_lookup_exact is met by a history that contains in-flight activations and releases *)
+Example C15_keyed_nonvacuous :
+  forallb (keyed (fun sid => match sid with 12 | 13 => 6 | _ => 2 end))
+    [CActivate 1 1 true None; CActivateLate 12 6 None; CRelease 12 6 []; CAddComplete 12 true;
+     CRelease 6 2 [false]; CActivateLate 13 6 None; CAddComplete 13 false] = true.
+Proof. reflexivity. Qed.
+Print Assumptions C15_keyed_nonvacuous.
